@@ -61,7 +61,7 @@ pub fn run(ctx: &mut Ctx) {
         for f in &fixed {
             for list in ["default", "all", "Square144"] {
                 if ctx.mine(item) {
-                    eval(ctx, &EncCase { input: f.clone(), list: list.into(), mask, macros: false, fnc1: false, eci: None, order: 0, prelude: 0, skipdef: false }, "all_63_subsets_fixed_inputs");
+                    eval(ctx, &EncCase { input: f.clone(), list: list.into(), mask, macros: false, fnc1: false, eci: None, order: 0, prelude: 0, skipdef: false, entry: 0 }, "all_63_subsets_fixed_inputs");
                 }
                 item += 1;
             }
@@ -82,7 +82,7 @@ pub fn run(ctx: &mut Ctx) {
                     c /= alpha.len();
                 }
                 for mask in 1..=63u8 {
-                    eval(ctx, &EncCase { input: v.clone(), list: "default".into(), mask, macros: false, fnc1: code % 7 == 3, eci: None, order: 0, prelude: 0, skipdef: false }, "small_scope_all_63_subsets");
+                    eval(ctx, &EncCase { input: v.clone(), list: "default".into(), mask, macros: false, fnc1: code % 7 == 3, eci: None, order: 0, prelude: 0, skipdef: false, entry: 0 }, "small_scope_all_63_subsets");
                 }
             }
             idx += 1;
